@@ -153,6 +153,41 @@ class Lib:
             raise exc if isinstance(exc, Exception) else RuntimeError("biom convert exit %r" % r.exit_code)
 
 
+def write_gzip(path, data, rng):
+    """the same bytes as one of the shapes a gzip file legitimately has (RFC 1952): one member at some level,
+    several members cut anywhere (mid-line, at a line end, an empty member), members appended later,
+    a member carrying a file name and a time stamp"""
+    shape = rng.choice(["single", "single-level1", "members", "members", "appended", "named", "blocks"])
+    if shape == "single":
+        with gzip.open(path, "wb") as f:
+            f.write(data)
+    elif shape == "single-level1":
+        with gzip.open(path, "wb", compresslevel=1) as f:
+            f.write(data)
+    elif shape in ("members", "blocks"):
+        k = rng.randint(2, 4) if shape == "members" else max(2, len(data) // 64)
+        cuts = sorted(rng.randint(0, len(data)) for _ in range(k - 1))
+        if shape == "members" and rng.random() < 0.5 and b"\n" in data:
+            nl = [i + 1 for i, b in enumerate(data) if b == 10]
+            cuts[0] = rng.choice(nl)
+            cuts.sort()
+        parts = [data[a:b] for a, b in zip([0] + cuts, cuts + [len(data)])]
+        with open(path, "wb") as f:
+            for part in parts:
+                f.write(gzip.compress(part, compresslevel=rng.choice([1, 6, 9])))
+    elif shape == "appended":
+        cut = rng.randint(0, len(data))
+        with gzip.open(path, "wb") as f:
+            f.write(data[:cut])
+        with gzip.open(path, "ab") as f:
+            f.write(data[cut:])
+    else:
+        with open(path, "wb") as raw:
+            with gzip.GzipFile(filename="table é.txt", mode="wb", fileobj=raw, mtime=rng.randint(0, 2 ** 31)) as f:
+                f.write(data)
+    return shape
+
+
 class AnyKey(dict):
     """a mapping that also answers IDs it was not given (a misread table asks for them)"""
 
@@ -247,17 +282,26 @@ TEXTS = ["x y", "z", "12", "1e5", "nan", "é", "a; b", "None", "k__A", "3.0", "i
 
 
 def gen_omd(rng, n, kind):
+    import numpy as np
     md = []
     with_conf = rng.random() < 0.5
+    as_array = rng.random() < 0.1           # values typed as they come back from an HDF5 file
     for i in range(n):
         e = {}
         if kind == "tax":
+            # ragged lists (the first is not the longest), now and then an unclassified observation: []
             e["taxonomy"] = [decorate(rng, rng.choice(TAX_ELEMS), 0.2, True).replace(";", ",")
-                             for _ in range(rng.randint(1, 4))]
+                             for _ in range(rng.choice([0, 1, 1, 2, 3, 4, 7]) if i else rng.choice([1, 1, 2]))]
+            if as_array:
+                e["taxonomy"] = np.array(e["taxonomy"], dtype=object)
             if with_conf:
                 e["confidence"] = rng.random()
         elif kind == "text":
             e["note"] = decorate(rng, rng.choice(TEXTS), 0.25, True) if rng.random() < 0.8 else "v%d" % i
+            if rng.random() < 0.15:
+                e["note"] = ""                      # an entry with nothing in it, next to entries with text
+            if as_array:
+                e["note"] = np.str_(e["note"])
             if with_conf:
                 e["taxonomy"] = ["k__A"]
         elif kind == "numeric-tax":
@@ -438,6 +482,12 @@ def pick_mdmode(rng, t):
         fm, pr = rng.choice([("naive", "naive"), ("str", "naive")])
     else:
         return None
+    if rng.random() < 0.15:
+        # a RELATION between an argument and the table: the column is named like one of its IDs
+        pool = [str(i) for i in t.ids()] + [str(i) for i in t.ids(axis="observation")]
+        pool = [i for i in pool if i and i == i.strip() and not any(c in i for c in "\t\n\r")]
+        if pool:
+            return {"key": k, "value": rng.choice(pool), "formatter": fm, "processor": pr}
     value = k if rng.random() < 0.6 else decorate(rng, rng.choice(["Consensus Lineage", "tax", "é md", "12", "x#y"]),
                                                    0.4, True)
     return {"key": k, "value": value, "formatter": fm, "processor": pr}
@@ -547,6 +597,15 @@ def check_case(ctx, lib, case, tags=()):
             ctx.count("cli-input-file-not-writable:%s" % cli_fmt)
             use_cli = False
         if use_cli:
+            # the command exports the table IN THE FILE: it must be the table of this case (else: C01/C02)
+            try:
+                held = observe_export(lib.biom.load_table(src_fp), mdmode)
+            except Exception:  # noqa
+                held = None
+            if held != {k: v for k, v in e.items() if k != "colName"}:
+                ctx.count("cli-input-file-does-not-hold-the-table:%s (C01/C02)" % cli_fmt)
+                use_cli = False
+        if use_cli:
             try:
                 args = ["-i", src_fp, "-o", out, "--to-tsv"]
                 if mdmode:
@@ -631,17 +690,32 @@ def check_case(ctx, lib, case, tags=()):
             with open(p, encoding="utf-8") as fh:
                 return lib.biom.load_table(fh)
         add("open-file", view, guarded(open_handle, profile), ident_ok, "naive")
-        with gzip.open(pz, "wb") as f:
-            f.write(s.encode("utf-8"))
-        with lib.util.biom_open(pz) as f:
+        crng = random.Random(hseed + 5)
+        shape = write_gzip(pz, s.encode("utf-8"), crng)
+        ctx.count("gzip-container=%s" % shape)
+        with io.TextIOWrapper(gzip.open(pz, "rb"), encoding="utf-8") as f:     # reference reader, not biom's
             viewz = list(f)
         add("gzip", viewz, guarded(lambda: lib.biom.load_table(pz), profile), ident_ok, "naive")
+        # equivalent plain containers: CRLF line ends, a final newline
+        if case.get("rare", True):
+            alt = tmp("alt.txt")
+            for nm, content in (("crlf", s.replace("\n", "\r\n") + "\r\n"), ("final-newline", s + "\n")):
+                with open(alt, "w", encoding="utf-8", newline="") as f:
+                    f.write(content)
+                with open(alt, encoding="utf-8") as f:
+                    valt = list(f)
+                add("path:" + nm, valt, guarded(lambda: lib.biom.load_table(alt), profile), ident_ok, "naive")
+                if nm == "crlf":
+                    write_gzip(alt, content.encode("utf-8"), crng)
+                    with io.TextIOWrapper(gzip.open(alt, "rb"), encoding="utf-8") as f:
+                        valt = list(f)
+                    add("gzip:crlf", valt, guarded(lambda: lib.biom.load_table(alt), profile), ident_ok, "naive")
+            rm(alt)
         if case.get("same_path"):
             order = ["gz", "plain", "json"] if hseed % 2 else ["json", "plain", "gz"]
             for kind in order:
                 if kind == "gz":
-                    with gzip.open(same, "wb") as f:
-                        f.write(s.encode("utf-8"))
+                    write_gzip(same, s.encode("utf-8"), crng)
                     add("same-path:gzip", viewz, guarded(lambda: lib.biom.load_table(same), profile), ident_ok, "naive")
                 elif kind == "plain":
                     with open(same, "w", encoding="utf-8", newline="") as f:
@@ -759,7 +833,12 @@ def check_case(ctx, lib, case, tags=()):
     inverse_ok = True
     if mdtexts is not None:
         inverse_ok = all(md_val(pr(txt.strip())) == v for txt, v in zip(mdtexts, e["md"]))
-    ids_ok, md_ok, some_non_numeric = guard_facts(e, mdtexts, inverse_ok)
+    if not inverse_ok:
+        # IDs and grid are still demanded; the category clause needs the inverse processing function
+        for res in results:
+            res["checkMd"] = False
+        ctx.count("pair-not-inverse-on-these-values: IDs and grid only")
+    ids_ok, md_ok, some_non_numeric = guard_facts(e, mdtexts, True)
     in_guard = ids_ok and md_ok and some_non_numeric and n >= 1 and m >= 1
     ctx.case({"export": e, "md": mdmode, "route": route, "history": hist},
              nontrivial=(n >= 1 and m >= 1 and s is not None))
@@ -796,8 +875,9 @@ def check_case(ctx, lib, case, tags=()):
         if not r["agree"]:
             ctx.diverge(case, "model differs (outside guard): %s" % r["what"], tags, detail={"model": r["model"]})
     else:
-        ctx.count("theorem-guard=%s" % ("met" if r["guard"] else "NOT-MET"))
-        if not r["guard"]:
+        if inverse_ok:
+            ctx.count("theorem-guard=%s" % ("met" if r["guard"] else "NOT-MET"))
+        if inverse_ok and not r["guard"]:
             ctx.diverge(case, "a case inside the property's guard does not meet the theorems' hypotheses (guardB)", tags)
         if not r["model_holds"]:
             ctx.diverge(case, "theorem model_holds contradicted by the driver", tags)
@@ -974,6 +1054,12 @@ def fixed_corpus():
         mdmode={"key": "note", "value": "note", "formatter": "naive", "processor": "naive"}, tags=("numeric-md",))
     add(sp(["O1", "O2"], ["S1"], [[1.0], [2.0]], [{"note": "x y"}, {"note": "z"}]),
         mdmode={"key": "note", "value": "note", "formatter": "str", "processor": "naive"})
+    # relations between the arguments and the table: the metadata column / the first column named like an ID
+    for hv in ("S1", "S2", "S3", "O1", "taxonomy"):
+        for samp in (["S1", "S2", "S3"], ["taxonomy", "S2", "S1"], ["S3", "taxonomy", "O1"]):
+            add(sp(["O1", "O2"], samp, [[1.0, 0.0, 2.5], [0.0, 3.0, 4.0]],
+                   [{"taxonomy": ["k__A", "p__b"]}, {"taxonomy": ["k__B"]}]),
+                mdmode=dict(md_tax, value=hv), tags=("relation:column-named-like-an-id",))
     # header key given, table without observation metadata: header column without a data column
     add(sp(["O1", "O2"], ["S1"], [[1.0], [2.0]]), mdmode=md_tax, tags=("key-without-metadata",))
     return cases
@@ -1087,7 +1173,8 @@ def run(ctx):
                     "hseed": rng.randint(0, 10 ** 9), "mdmode": "auto", "clifmt": rng.choice(["json", "json", "hdf5"]),
                     "cli": (not ctx.quick()) or i % 3 == 0,
                     "poke": rng.random() < 0.6, "rare": i % 2 == 0, "same_path": i % 5 == 0,
-                    "colname": rng.choice(COLNAMES) if rng.random() < 0.1 else None,
+                    "colname": rng.choice(COLNAMES + [x for x in spec["samp"][:1] + spec["obs"][:1]
+                                                      if x == x.strip() and x]) if rng.random() < 0.1 else None,
                     "profile": rng.choice(PROFILES) if rng.random() < 0.25 else None,
                     "cli_extra": {"table_type": rng.choice([None, "OTU table", "Taxon table", "Table"]),
                                   "sample_md": rng.random() < 0.3}}
